@@ -715,7 +715,7 @@ def mutations(rng, count):
 def gen_malformed_case(rng, cid, tier, kind, lgk):
     c = gen_case(rng, cid, tier, kind, lgk)
     ops = []
-    per = 12 if tier == "quick" else 40
+    per = 5 if tier == "quick" else 40      # (quick: the model's invariant check on every accepted dump dominates the run time)
     for (code, a) in c.ops:
         if code in (6, 7):
             continue
@@ -732,6 +732,9 @@ def gen_malformed(rng, tier, n):
               ("hashed", 10), ("random", 5), ("random", 7), ("random", 9), ("rtl", 4), ("rtl", 6), ("colfill", 8), ("hashed", 12)]
     if tier != "quick":
         plan_m = plan_m * 4
+    else:
+        # quick tier: small sketches only (lg_k <= 8); the larger ones run in the thorough tier
+        plan_m = [(k, l) for (k, l) in plan_m if l <= 8] + [("hashed", 9)]
     for kind, lgk in plan_m:
         cases.append(gen_malformed_case(rng, len(cases), tier, kind, lgk))
     # raw byte strings: random, and hand-made headers with every flag combination and short lengths
@@ -741,7 +744,7 @@ def gen_malformed(rng, tier, n):
         b = [rng.randrange(256) for _ in range(ln)]
         if ln >= 8 and rng.random() < 0.8:
             b[0] = rng.choice([2, 4, 6, 8, 10, rng.randrange(256)]); b[1] = 1; b[2] = 16
-            b[3] = rng.choice([4, 5, 10, 12, 26, 27, 3]); b[4] = rng.choice([0, 0, 1, 63, 64]); b[5] = 2 | (rng.randrange(8) << 2)
+            b[3] = rng.choice([4, 5, 10, 12, 13, 27, 3, 63, 255]);   # (an accepted lg_k 26 image costs the model's invariant check minutes) b[4] = rng.choice([0, 0, 1, 63, 64]); b[5] = 2 | (rng.randrange(8) << 2)
             sh = pyref.seed_hash(9001); b[6] = sh & 255; b[7] = sh >> 8
             if ln >= 12 and rng.random() < 0.7:
                 c = rng.choice([0, 1, 2, 5, 100, 1 << 20, 0xffffffff])
